@@ -46,9 +46,10 @@ TinyFams == <<             \* for experiments only
   Fam(1, Two,  1, 1, {0},    {"asc"}, 0, "id") >>
 ThoroughFams == <<
   Fam(1, All5, 0, 4, {0, 1}, {"asc"}, 0, "std"),          \* every table of <= 4 rows
-  Fam(1, All5, 3, 3, {0, 1}, {"rev"}, 0, "std"),
+  Fam(1, Mix3, 3, 3, {0, 1}, {"rev"}, 0, "std"),
   Fam(1, All5, 4, 4, {0},    {"rev"}, 0, "std"),
-  Fam(2, 1..9, 1, 3, {0},    {"asc", "rev"}, 0, "std"),
+  Fam(2, 1..9, 1, 2, {0},    {"asc", "rev"}, 0, "std"),
+  Fam(2, 1..9, 3, 3, {0},    {"rev"}, 0, "std"),
   Fam(2, {3, 6, 8, 5, 7}, 3, 3, {0, 1}, {"rev"}, 0, "std"),     \* 1, True, 1.5, "a", "b"
   Fam(1, Mix3, 1, 2, {0, 1}, {"asc"}, 1, "std"),          \* one edit
   Fam(1, Two,  3, 3, {0, 1}, {"rev"}, 1, "std"),
